@@ -49,6 +49,54 @@ def run(rep: core.Report):
     _r14d(rep)
     _r14e(rep)
     _r14f(rep)
+    _r14g(rep)
+
+
+# ---------------------------------------------------------------------------
+# R14g reciprocal-space frames
+# ---------------------------------------------------------------------------
+
+
+def _r14g(rep):
+    from engine import frames
+    from engine.frames import C as CART, L as LAT, U as UNK
+
+    QRED = (LAT("p", "-"),)  # q-point / direction in reduced reciprocal coordinates
+    RECLAT = (CART, LAT("p", "+"))  # inv(primitive.cell): reciprocal basis vectors in columns
+    run_sig = {"pos": [QRED], "kw": {"q_direction": QRED, "perturbation": QRED}}
+    sigs = {"run": run_sig, "_compute_dynamical_matrix": {"pos": [QRED, QRED]}, "_get_dD": {"pos": [QRED]}, "_get_dynamical_matrix": {"pos": [QRED]}}
+    rep.rule("R14g", "q-points and NAC/perturbation directions handed between the access paths are in reduced reciprocal coordinates everywhere (frame typing: reciprocal basis (Cart, L+) contracts with reduced vectors L-; a Cartesian vector is never passed where a reduced one is expected)", 8)
+    scope = [
+        ("phonopy/phonon/band_structure.py", "BandStructure._solve_dm_on_path", {}, {"path": (UNK,) + QRED}),
+        ("phonopy/phonon/qpoints.py", "QpointsPhonon._get_dynamical_matrix", {"self._nac_q_direction": QRED}, {"q": QRED}),
+        ("phonopy/phonon/qpoints.py", "QpointsPhonon._run", {"self._nac_q_direction": QRED, "self._qpoints": (UNK,) + QRED}, {}),
+        ("phonopy/phonon/group_velocity.py", "GroupVelocity.run", {"self._reciprocal_lattice": RECLAT}, {"q_points": (UNK,) + QRED, "perturbation": QRED}),
+        ("phonopy/phonon/group_velocity.py", "GroupVelocity._get_dD_FD", {"self._reciprocal_lattice": RECLAT, "self._reciprocal_lattice_inv": (LAT("p", "-"), CART)}, {"q": QRED}),
+        ("phonopy/harmonic/dynamical_matrix.py", "DynamicalMatrixNAC.run", {"self._rec_lat": RECLAT}, {"q": QRED, "q_direction": QRED}),
+        ("phonopy/harmonic/dynamical_matrix.py", "DynamicalMatrixGL._compute_dynamical_matrix", {"self._rec_lat": RECLAT}, {"q_red": QRED, "q_direction": QRED}),
+        ("phonopy/harmonic/dynamical_matrix.py", "DynamicalMatrixWang._compute_dynamical_matrix", {"self._rec_lat": RECLAT}, {"q_red": QRED, "q_direction": QRED}),
+        ("phonopy/harmonic/dynamical_matrix.py", "DynamicalMatrixGL._get_Gonze_dipole_dipole", {"self._rec_lat": RECLAT}, {"q_red": QRED, "q_direction": QRED}),
+        ("phonopy/phonon/mesh.py", "IterMesh.__next__", {"self._qpoints": (UNK,) + QRED}, {}),
+        ("phonopy/phonon/mesh.py", "Mesh._set_phonon", {"self._qpoints": (UNK,) + QRED}, {}),
+    ]
+    typed = 0
+    for rel, qn, seeds, params in scope:
+        try:
+            fn = core.find_def(rel, qn)
+        except AnalysisError:
+            if "_get_Gonze_dipole_dipole" in qn or "_get_dD_FD" in qn:
+                continue
+            raise
+        ty = frames.Typer(fn, seeds=seeds, params=params, call_sigs=sigs, where=f"{rel}::{qn}")
+        problems = ty.run()
+        typed += ty.n_typed
+        if not problems:
+            rep.instance("R14g", rel, qn, f"{ty.n_typed} reciprocal-space contractions/arguments typed consistently", True, nontrivial=ty.n_typed > 0, line=fn.lineno)
+        for p in problems:
+            rep.instance("R14g", rel, qn, core.norm(core.src(p.node), 90), False,
+                         f"{p.message}: this access path works in a different coordinate system than its siblings (Cartesian vs reduced, or a transposed reciprocal lattice); the results differ for non-orthogonal cells", line=getattr(p.node, "lineno", fn.lineno))
+    if typed < 8:
+        raise AnalysisError(f"R14g: only {typed} reciprocal-space operations could be typed")
 
 
 # ---------------------------------------------------------------------------
@@ -472,6 +520,8 @@ def selftest():
     b("init_mesh: IterMesh gets the raw gamma-centre flag", "phonopy/api_phonopy.py", "                is_gamma_center=_is_gamma_center,\n                rotations=self._primitive_symmetry.pointgroup_operations,\n                factor=self._factor,\n            )\n        else:", "                is_gamma_center=is_gamma_center,\n                rotations=self._primitive_symmetry.pointgroup_operations,\n                factor=self._factor,\n            )\n        else:", "R14d", "is_gamma_center")
     b("qpoints writer recomputes from eigenvalues", "phonopy/phonon/qpoints.py", "    def write_hdf5(self, filename=\"qpoints.hdf5\"):\n        \"\"\"Write results in hdf5.\"\"\"\n", "    def write_hdf5(self, filename=\"qpoints.hdf5\"):\n        \"\"\"Write results in hdf5.\"\"\"\n        _tmp = self._natom_cache\n", "R14e", "write_hdf5")
     b("group velocity: perturbation direction only stored when given", "phonopy/phonon/group_velocity.py", "        if perturbation is None:\n            # Give an random direction to break symmetry\n            self._directions[0] = np.array([1, 2, 3])\n        else:\n            self._directions[0] = np.dot(self._reciprocal_lattice, perturbation)\n        self._directions[0] /= np.linalg.norm(self._directions[0])", "        if perturbation is not None:\n            direction = np.dot(self._reciprocal_lattice, perturbation)\n            self._directions[0] = direction / np.linalg.norm(direction)", "R14f", "_directions")
+    b("band structure: NAC direction built from Cartesian end points", "phonopy/phonon/band_structure.py", "                q_direction = path[0] - path[-1]", "                q_direction = rec_lat @ path[0] - rec_lat @ path[-1]", "R14g", "_solve_dm_on_path")
+    b("NAC run: direction contracted with the transposed reciprocal lattice", "phonopy/harmonic/dynamical_matrix.py", "            q_norm = np.linalg.norm(self._rec_lat @ q_direction)", "            q_norm = np.linalg.norm(self._rec_lat.T @ q_direction)", "R14g", "DynamicalMatrixNAC.run")
     n("qpoints: allocate eigenvectors with empty_like", "phonopy/phonon/qpoints.py", "                eigenvectors = np.zeros_like(dynmat)\n", "                eigenvectors = np.empty_like(dynmat)\n")
     b("qpoints: share buffer under the wrong flag", "phonopy/phonon/qpoints.py", "            if self._with_dynamical_matrices:\n                # dynmat[i]", "            if not self._with_dynamical_matrices:\n                # dynmat[i]", "R14a", "dynmat")
     n("mesh: conversion written with np.abs and reordered", "phonopy/phonon/mesh.py", "np.sqrt(abs(eigenvalues)) * np.sign(eigenvalues),", "np.sign(eigenvalues) * np.sqrt(np.abs(eigenvalues)),", nth=0)
